@@ -1465,10 +1465,11 @@ class Interp:
             elif isinstance(base, Vec) and isinstance(key, Vec):
                 self._masked_store(base, key, value)
             elif isinstance(base, Vec) and isinstance(key, tuple) and len(key) == 2 and isinstance(key[1], Vec):
-                row = base.items[self.lib.concrete_int(key[0])]
-                if not isinstance(row, Vec):
-                    raise AnalysisError("masked store into a scalar row")
-                self._masked_store(row, key[1], value)
+                rows = base.items[key[0]] if isinstance(key[0], slice) else [base.items[self.lib.concrete_int(key[0])]]
+                for row in rows:           # a[i, mask] = v  /  a[:, mask] = v
+                    if not isinstance(row, Vec):
+                        raise AnalysisError("masked store into a scalar row")
+                    self._masked_store(row, key[1], value)
             else:
                 raise AnalysisError(f"subscript store on {base!r}")
         else:
@@ -1538,6 +1539,19 @@ class Interp:
             from . import peg
             if isinstance(v, peg.PE):
                 return peg.NotAny(v)
+
+            def inv(x):
+                if isinstance(x, Vec):
+                    return Vec([inv(i) for i in x.items], x.col)
+                if isinstance(x, bool):
+                    return not x
+                if isinstance(x, sp.logic.boolalg.Boolean):
+                    r = sp.Not(x)
+                    return True if r is sp.true else False if r is sp.false else r
+                if is_expr(x) and to_expr(x).is_Integer:
+                    return sp.Integer(~int(to_expr(x)))
+                raise AnalysisError("~ of a value that is neither a boolean (array) nor an integer")
+            return inv(v)
         raise AnalysisError("unary op")
 
     def e_BoolOp(self, n, f):
